@@ -705,6 +705,7 @@ func (pc *PkgContracts) generate(locals map[string]localInfo) (string, error) {
 	body.WriteString(`
 func old[T any](x T) T { return x }
 func allrefs[T any](f func(p *T) bool) bool { return true }
+func allold[T any](f func(p *T) bool) bool { return true }
 func allstrings(f func(s string) bool) bool { return true }
 func iterpos(s string) int { return 0 }
 func floatfinite(f float64) bool { return true }
